@@ -53,6 +53,19 @@ Theorem C04_header_line_classified : forall (hdr : header) (notes : list note_en
   ~ In 32 k -> classify_line (hdr, notes) ([35] ++ k ++ [32] ++ v) = Some (dict_set k v hdr, notes).
 Proof. exact classify_header_line. Qed.
 
+(* bms_read_header (whole file): whenever the read succeeds on a text containing the header line  #K v  (anywhere; K not
+   set again by a later line), the chart retains it: as title / artist / level / LNOBJ, and in misc for every other key
+   that is not #BPM, #BPMxx or #WAV.. *)
+Theorem C04_bms_read_header : forall (tb : list Q) (cfg : layout) (mk : Z) (l1 l2 : list text) (k v : text) (c : bms_chart),
+  ~ In 32 k ->
+  strip ([35] ++ k ++ [32] ++ v) = [35] ++ k ++ [32] ++ v ->
+  (forall l, In l l2 -> header_key_of (strip l) <> Some k) ->
+  bms_read tb cfg mk (l1 ++ ([35] ++ k ++ [32] ++ v) :: l2) = Some c ->
+  (k = K_TITLE -> m_title (c_meta c) = v) /\ (k = K_ARTIST -> m_artist (c_meta c) = v)
+  /\ (k = K_PLAYLEVEL -> m_version (c_meta c) = v) /\ (k = K_LNOBJ -> m_lnobj (c_meta c) = v)
+  /\ (is_exbpm_key k = false -> is_wav_key k = false -> text_eqb K_BPM k = false -> In (k, v) (m_misc (c_meta c))).
+Proof. exact bms_read_header. Qed.
+
 (* ---- the whole-file statement is refuted (1): lines out of time order, LN tail pairs with the last PARSED head ---- *)
 Definition w_order : list text := [(tx[L[35;66;80;77;32;49;50;48]])%Z; (tx[L[35;76;78;79;66;74;32;90;90]])%Z; (tx[L[35;48;48;50;49;49;58;48;49]])%Z; (tx[L[35;48;48;49;49;49;58;90;90]])%Z; (tx[L[35;48;48;48;49;49;58;48;49]])%Z].
 Theorem C04_read_denotes_refuted_order :
